@@ -74,6 +74,7 @@ package ecs
 //@ func Mask.Not(b) (r)
 //@   props C04
 //@   ensures forall! i uint8 :: validID(i) ==> specBit(r, i) == !specBit(*b, i)
+//@   ensures[symbolic] forall i uint8 :: {bitU(r, i)} validID(i) ==> bitU(r, i) == !bitU(*b, i)
 
 //@ func Mask.IsZero(b) (r)
 //@   props C04
@@ -334,7 +335,7 @@ package ecs
 //@ func lockMask.Reset(m)
 //@   flag use_expanded
 //@   props C09 C15
-//@   ensures lockInv(m) && maskEmpty(m.locks)
+//@   ensures lockInv(m) && maskEmpty(m.locks) && m.bitPool.length == 0 && m.bitPool.available == 0
 //@   modifies m.locks.bits, *(&m.bitPool)
 
 // ---- C09: the lock rule for structural entry points ---------------------------------------------
@@ -591,7 +592,22 @@ package ecs
 //@   ensures regInv(&w.registry)
 //@   ensures old(mapHas(w.registry.Components, tp.val)) ==> r.id == old(w.registry.Components[tp.val]) && regSame(&w.registry)
 //@   ensures !old(mapHas(w.registry.Components, tp.val)) ==> int(r.id) == old(regCount(&w.registry)) && specBit(w.registry.IsRelation, r.id) == isRelationType(tp)
-//@   ensures mapHas(w.registry.Components, tp.val) && w.registry.Components[tp.val] == r.id
+//@   ensures mapHas(w.registry.Components, tp.val) && w.registry.Components[tp.val] == r.id && validID(r.id)
+//@   ensures forall t ref :: {mapHas(w.registry.Components, t)} t != tp.val ==> mapHas(w.registry.Components, t) == old(mapHas(w.registry.Components, t)) && w.registry.Components[t] == old(w.registry.Components[t])
+//@   ensures[mono] forall t ref :: {mapHas(w.registry.Components, t)} old(mapHas(w.registry.Components, t)) ==> mapHas(w.registry.Components, t) && w.registry.Components[t] == old(w.registry.Components[t])
+//@   modifies w.registry.Components[ALL], w.registry.Types[ALL], w.registry.Used.bits, w.registry.IsRelation.bits, w.registry.IDs, w.registry.IDs[ALL], all(archetypeData.layouts), all(archetypeAccess.basePointer)
+
+// rtypeOf(typeid(T)): the reflect.Type of T. ASSUMED: reflect.TypeOf((*T)(nil)).Elem() denotes it (reflection is outside the
+// verified code); with that, ComponentID[T](w) is TypeID(w, rtypeOf(typeid(T))) - the clauses below are TypeID's.
+//@ uf rtypeOf(tag int) reflect.Type
+//@ func ComponentID(w) (r)
+//@   flag trusted may_panic
+//@   requires w != nil && regInv(&w.registry)
+//@   ensures regInv(&w.registry)
+//@   ensures old(mapHas(w.registry.Components, rtypeOf(typeid(T)).val)) ==> r.id == old(w.registry.Components[rtypeOf(typeid(T)).val]) && regSame(&w.registry)
+//@   ensures mapHas(w.registry.Components, rtypeOf(typeid(T)).val) && w.registry.Components[rtypeOf(typeid(T)).val] == r.id && validID(r.id)
+//@   ensures forall t ref :: {mapHas(w.registry.Components, t)} t != rtypeOf(typeid(T)).val ==> mapHas(w.registry.Components, t) == old(mapHas(w.registry.Components, t)) && w.registry.Components[t] == old(w.registry.Components[t])
+//@   ensures[mono] forall t ref :: {mapHas(w.registry.Components, t)} old(mapHas(w.registry.Components, t)) ==> mapHas(w.registry.Components, t) && w.registry.Components[t] == old(w.registry.Components[t])
 //@   modifies w.registry.Components[ALL], w.registry.Types[ALL], w.registry.Used.bits, w.registry.IsRelation.bits, w.registry.IDs, w.registry.IDs[ALL], all(archetypeData.layouts), all(archetypeAccess.basePointer)
 
 //@ func ComponentIDs(w) (ids)
@@ -637,39 +653,63 @@ package ecs
 
 //@ func pagedSlice[archetype].Add(p, value)
 //@   flag trusted
+//@   ensures p.len == old(p.len) + 1
 //@   modifies *p
 //@ func pagedSlice[archetypeData].Add(p, value)
 //@   flag trusted
+//@   ensures p.len == old(p.len) + 1
 //@   modifies *p
+// pgArch(p, i): the table in slot i of a paged slice. ASSUMED: Get is a function of (p, i) (pages never move) and
+// different slots are different tables.
+//@ uf pgArch(p *pagedSlice[archetype], i int32) *archetype
+//@ axiom pgArch: forall p *pagedSlice[archetype], i int32, j int32 :: {pgArch(p, i), pgArch(p, j)} pgArch(p, i) == pgArch(p, j) ==> i == j
 //@ func pagedSlice[archetype].Get(p, index) (r)
 //@   flag trusted
-//@   ensures r != nil
+//@   ensures r != nil && r == pgArch(p, index)
+//@ uf pgData(p *pagedSlice[archetypeData], i int32) *archetypeData
+//@ axiom pgData: forall p *pagedSlice[archetypeData], i int32, j int32 :: {pgData(p, i), pgData(p, j)} pgData(p, i) == pgData(p, j) ==> i == j
 //@ func pagedSlice[archetypeData].Get(p, index) (r)
 //@   flag trusted
-//@   ensures r != nil
+//@   ensures r != nil && r == pgData(p, index)
 //@ func pagedSlice[archetype].Len(p) (n)
 //@   flag trusted
 //@   ensures n == p.len
 //@ func archetype.Init(a, node, data, index, forStorage, layouts, relation)
 //@   flag trusted
 //@   requires layouts >= 16
-//@   ensures a.node == node && a.archetypeData == data && a.archetypeAccess.RelationTarget == relation && a.len == 0
+//@   ensures a.node == node && a.archetypeData == data && a.archetypeAccess.RelationTarget == relation && a.len == 0 && data.index == index
 //@   modifies *a, *data, node.IsActive
+// CreateArchetype (C06): a table for `target` is taken from the free list if there is one - it is then EMPTY (that is the
+// free-list invariant) and gets exactly the new target - or created; either way it is entered in the target map.
 //@ func archNode.CreateArchetype(a, layouts, target) (arch)
-//@   flag trusted
-//@   requires layouts >= 16
+//@   props C06
+//@   requires layouts >= 16 && nodeOK(a)
 //@   ensures arch != nil && arch.node == a && arch.archetypeData != nil && arch.archetypeAccess.RelationTarget == target && arch.len == 0
-//@   modifies all(nodeData.freeIndices), all(archetypeData.index)
+//@   ensures nodeFreeInv(a) && a.nodeData.archetypes.len == a.nodeData.archetypeData.len && mapHas(a.nodeData.archetypeMap, target) && a.nodeData.archetypeMap[target] == arch
+//@   ensures[others] forall d *archetypeData :: {d.index} d != arch.archetypeData ==> d.index == old(d.index)
+//@   ensures[fresh] old(len(a.nodeData.freeIndices)) == 0 ==> arch == pgArch(&a.nodeData.archetypes, old(a.nodeData.archetypes.len)) && arch.archetypeData == pgData(&a.nodeData.archetypeData, old(a.nodeData.archetypes.len))
+//@   ensures[slot] arch.archetypeData == pgData(&a.nodeData.archetypeData, arch.archetypeData.index) && pgArch(&a.nodeData.archetypes, arch.archetypeData.index) == arch && arch.archetypeData.index < a.nodeData.archetypes.len
+//@   ensures[mono] arch.archetypeData.index >= 0 && a.nodeData.archetypes.len >= old(a.nodeData.archetypes.len) && len(a.nodeData.freeIndices) <= old(len(a.nodeData.freeIndices))
+//@   ensures old(len(a.nodeData.freeIndices)) > 0 ==> arch == old(pgArch(&a.nodeData.archetypes, a.nodeData.freeIndices[len(a.nodeData.freeIndices) - 1])) && len(a.nodeData.freeIndices) == old(len(a.nodeData.freeIndices)) - 1
+//@   ensures forall t Entity :: {mapHas(a.nodeData.archetypeMap, t)} t != target ==> mapHas(a.nodeData.archetypeMap, t) == old(mapHas(a.nodeData.archetypeMap, t)) && a.nodeData.archetypeMap[t] == old(a.nodeData.archetypeMap[t])
+//@   flag noframe
+//@   modifies a.nodeData.freeIndices, a.nodeData.archetypeMap[ALL], *(&a.nodeData.archetypes), *(&a.nodeData.archetypeData), a.IsActive
+//@   modifies all(archetype.archetypeData), all(archetype.node), all(archetype.archetypeAccess), all(archetype.len), all(archetype.cap), all(archetypeData.entityBuffer), all(archetypeData.layouts), all(archetypeData.buffers), all(archetypeData.indices), all(archetypeData.index)
 //@ func archNode.SetArchetype(a, arch)
 //@   flag trusted
 //@   modifies a.nodeData.archetype
 
 //@ func World.createArchetype(w, node, target, forStorage) (arch)
-//@   props C16
-//@   requires regInv(&w.registry) && node != nil
+//@   props C16 C06
+//@   requires regInv(&w.registry) && node != nil && (node.HasRelation ==> nodeOK(node))
 //@   flag convcheck nodirty assumedframe
 //@   ensures arch != nil
 //@   ensures node.HasRelation ==> arch.node == node && arch.archetypeAccess.RelationTarget == target && arch.archetypeData != nil
+//@   ensures node.HasRelation ==> nodeFreeInv(node) && node.nodeData.archetypes.len == node.nodeData.archetypeData.len && (forall d *archetypeData :: {d.index} d != arch.archetypeData ==> d.index == old(d.index))
+//@   ensures node.HasRelation ==> arch.archetypeData.index >= 0 && node.nodeData.archetypes.len >= old(node.nodeData.archetypes.len) && len(node.nodeData.freeIndices) <= old(len(node.nodeData.freeIndices))
+//@   ensures node.HasRelation ==> arch.archetypeData == pgData(&node.nodeData.archetypeData, arch.archetypeData.index) && pgArch(&node.nodeData.archetypes, arch.archetypeData.index) == arch && arch.archetypeData.index < node.nodeData.archetypes.len
+//@   ensures node.HasRelation && old(len(node.nodeData.freeIndices)) == 0 ==> arch == pgArch(&node.nodeData.archetypes, old(node.nodeData.archetypes.len)) && arch.archetypeData == pgData(&node.nodeData.archetypeData, old(node.nodeData.archetypes.len))
+//@   ensures node.HasRelation && old(len(node.nodeData.freeIndices)) > 0 ==> arch == old(pgArch(&node.nodeData.archetypes, node.nodeData.freeIndices[len(node.nodeData.freeIndices) - 1]))
 //@   modifies *(&w.archetypes), *(&w.archetypeData), all(nodeData.freeIndices), all(archetypeData.index), all(cacheEntry.Indices), all(nodeData.archetype), all(archNode.IsActive)
 
 // ---------------------------------------------------------------------------------------------
@@ -706,7 +746,7 @@ package ecs
 //@   ensures e.id == id && e.gen == 0
 
 //@ func entityPool.Get(p) (e)
-//@   props C02 C13
+//@   props C02 C13 C17
 //@   requires poolInv(p) && issuedInv(p)
 //@   requires len(p.entities) < 1073741823 && p.capacityIncrement < 1073741823
 //@   ghost p.eused[e.id] := true
@@ -718,10 +758,15 @@ package ecs
 //@   ensures forall i int :: {p.entities[i].gen} 0 <= i && i < old(len(p.entities)) ==> p.entities[i].gen == old(p.entities[i].gen)
 //@   ensures old(p.available) > 0 ==> e.id == old(p.estk[int(p.available) - 1]) && len(p.entities) == old(len(p.entities)) && p.available == old(p.available) - 1
 //@   ensures old(p.available) == 0 ==> int(e.id) == old(len(p.entities)) && len(p.entities) == old(len(p.entities)) + 1 && e.gen == 0 && p.available == 0
+// C17 (view determinacy): the handle and the new pool view (entities, next, available) are functions of the old view alone
+//@   ensures[view] old(p.available) > 0 ==> e.id == old(p.next) && e.gen == old(p.entities[int(p.next)].gen) && p.next == old(p.entities[int(p.next)].id)
+//@   ensures[view] old(p.available) == 0 ==> p.next == old(p.next)
+//@   ensures[view] p.entities[int(e.id)].id == e.id && p.entities[int(e.id)].gen == e.gen
+//@   ensures[view] forall i int :: {p.entities[i].id} 0 <= i && i < old(len(p.entities)) && i != int(e.id) ==> p.entities[i].id == old(p.entities[i].id)
 //@   modifies *p, p.entities[ALL]
 
 //@ func entityPool.getNew(p) (e)
-//@   props C02
+//@   props C02 C17
 //@   requires poolInv(p) && issuedInv(p) && p.available == 0
 //@   requires len(p.entities) < 1073741823 && p.capacityIncrement < 1073741823
 //@   ghost p.estk[old(poolN(p))] := e.id
@@ -734,10 +779,12 @@ package ecs
 //@   ensures forall i int :: {p.entities[i].gen} 0 <= i && i < old(len(p.entities)) ==> p.entities[i].gen == old(p.entities[i].gen)
 //@   ensures p.entities[int(e.id)].gen == 0
 //@   ensures forall i eid, g uint32 :: {p.issued[mk(Entity, i, g)]} p.issued[mk(Entity, i, g)] == old(p.issued[mk(Entity, i, g)])
+//@   ensures[view] p.next == old(p.next) && p.entities[int(e.id)].id == e.id
+//@   ensures[view] forall i int :: {p.entities[i].id} 0 <= i && i < old(len(p.entities)) ==> p.entities[i].id == old(p.entities[i].id)
 //@   modifies *p, p.entities[ALL]
 
 //@ func entityPool.Recycle(p, e)
-//@   props C02 C13
+//@   props C02 C13 C17
 //@   requires poolInv(p) && issuedInv(p) && int(e.id) < len(p.entities)
 //@   requires p.eused[e.id] && p.entities[int(e.id)].gen == e.gen
 //@   known C02-gen-wrap: requires p.entities[int(e.id)].gen != 4294967295
@@ -753,10 +800,12 @@ package ecs
 //@   ensures forall i eid :: {p.eused[i]} i != e.id ==> p.eused[i] == old(p.eused[i])
 //@   ensures forall i int :: {p.entities[i].gen} 0 <= i && i < len(p.entities) && i != int(e.id) ==> p.entities[i].gen == old(p.entities[i].gen)
 //@   ensures forall i eid, g uint32 :: {p.issued[mk(Entity, i, g)]} p.issued[mk(Entity, i, g)] == old(p.issued[mk(Entity, i, g)])
+//@   ensures[view] p.next == e.id && p.entities[int(e.id)].id == old(p.next)
+//@   ensures[view] forall i int :: {p.entities[i].id} 0 <= i && i < len(p.entities) && i != int(e.id) ==> p.entities[i].id == old(p.entities[i].id)
 //@   modifies p.next, p.available, p.estk, p.erank, p.eused, p.entities[int(e.id)]
 
 //@ func entityPool.Alive(p, e) (r)
-//@   props C02
+//@   props C02 C17
 //@   requires int(e.id) < len(p.entities)
 //@   ensures r == (e.gen == p.entities[int(e.id)].gen)
 
@@ -765,7 +814,7 @@ package ecs
 //@   requires poolInv(p)
 //@   ghost p.eused := const(false)
 //@   ghost p.issued := const(false)
-//@   ensures poolInv(p) && issuedInv(p) && len(p.entities) == 1 && p.available == 0
+//@   ensures poolInv(p) && issuedInv(p) && len(p.entities) == 1 && p.available == 0 && p.next == 0 && p.entities.data == old(p.entities.data)
 //@   modifies p.entities, p.next, p.available, p.eused, p.issued
 
 //@ func entityPool.Len(p) (n)
@@ -1393,8 +1442,25 @@ package ecs
 //@   ensures a.len == old(a.len) - 1 && swapped == (index != old(a.len) - 1)
 //@   ensures swapped ==> entAt(&a.archetypeAccess, index) == old(entAt(&a.archetypeAccess, a.len - 1))
 //@   modifies a.len
+// compAt: where the storage layer keeps component id of row index (ASSUMED storage contract; C18 only needs that it is a function)
+//@ uf compAt(a *archetypeAccess, index uint32, id uint8) unsafe.Pointer
 //@ func archetypeAccess.Get(a, index, id) (p)
 //@   flag trusted
+//@   ensures p == compAt(a, index, id.id)
+// wget / wgetU: what World.Get / World.GetUnchecked return for (entity, id) in the current state (ASSUMED functions of the
+// arguments; their storage meaning is outside the verified code)
+//@ uf wget(w *World, e Entity, id uint8) unsafe.Pointer
+//@ uf wgetU(w *World, e Entity, id uint8) unsafe.Pointer
+//@ func World.Get(w, entity, comp) (p)
+//@   flag trusted may_panic
+//@   ensures p == wget(w, entity, comp.id)
+//@ func World.GetUnchecked(w, entity, comp) (p)
+//@   flag trusted may_panic
+//@   ensures p == wgetU(w, entity, comp.id)
+//@ func Query.Get(q, comp) (p)
+//@   props C18
+//@   requires q.access != nil
+//@   ensures p == compAt(q.access, q.entityIndex, comp.id)
 //@ func archetype.SetPointer(a, index, id, comp) (p)
 //@   flag trusted nodirty
 //@ func archetype.Set(a, index, id, comp) (p)
@@ -1412,14 +1478,53 @@ package ecs
 // Creating graph nodes and empty tables is internal (not observable through the entity view): flag nodirty.
 //@ func World.findOrCreateArchetype(w, start, add, rem, target) (arch)
 //@   flag trusted nodirty may_panic panic_clean
-//@   ensures arch != nil && arch.node != nil && arch.archetypeData != nil
+//@   ensures arch != nil && arch.node != nil && arch.archetypeData != nil && arch.archetypeData.index >= 0
 //@   ensures arch.archetypeAccess.HasRelationComponent ==> arch.archetypeAccess.RelationTarget == target
 //@   ensures !arch.archetypeAccess.HasRelationComponent ==> arch.archetypeAccess.RelationTarget.id == 0
 //@   ensures validID(arch.archetypeAccess.RelationComponent.id)
 //@   ensures arch != start || (len(add) == 0 && len(rem) == 0)
 
-//@ func World.cleanupArchetype(w, arch)
+// Cache.removeArchetype (ASSUMED, see C07): only the table lists and position maps of cache entries change.
+//@ func Cache.removeArchetype(c, arch)
 //@   flag trusted nodirty
+//@   modifies all(cacheEntry.Indices), all(pointers[archetype].pointers), elems(*archetype), c.getArchetypes
+
+// removeArchetype (C06): the table is retired in its node (emptied, marked inactive, slot on the free list, target map entry gone)
+//@ func World.removeArchetype(w, arch)
+//@   props C06
+//@   requires arch != nil && arch.archetypeData != nil && arch.node != nil && nodeFreeInv(arch.node)
+//@   requires 0 <= arch.archetypeData.index && arch.archetypeData.index < arch.node.nodeData.archetypes.len && pgArch(&arch.node.nodeData.archetypes, arch.archetypeData.index) == arch && arch.archetypeData == pgData(&arch.node.nodeData.archetypeData, arch.archetypeData.index)
+//@   requires len(arch.node.nodeData.freeIndices) < 1073741823
+//@   flag nodirty
+//@   ensures nodeFreeInv(arch.node) && arch.len == 0 && arch.archetypeData.index == -1 && arch.node == old(arch.node) && len(arch.node.nodeData.freeIndices) == old(len(arch.node.nodeData.freeIndices)) + 1
+//@   ensures !mapHas(arch.node.nodeData.archetypeMap, old(arch.archetypeAccess.RelationTarget))
+//@   ensures forall t Entity :: {mapHas(arch.node.nodeData.archetypeMap, t)} t != old(arch.archetypeAccess.RelationTarget) ==> mapHas(arch.node.nodeData.archetypeMap, t) == old(mapHas(arch.node.nodeData.archetypeMap, t)) && arch.node.nodeData.archetypeMap[t] == old(arch.node.nodeData.archetypeMap[t])
+//@   modifies arch.node.nodeData.archetypeMap[ALL], arch.node.nodeData.freeIndices, arch.node.nodeData.freeIndices[ALL], arch.len, arch.archetypeData.index
+//@   modifies all(cacheEntry.Indices), all(pointers[archetype].pointers), elems(*archetype), w.filterCache.getArchetypes
+
+// tableSlotOK: the table sits in the slot of its node that its index names (true for every active relation table)
+//@ pred tableSlotOK(arch *archetype) bool =
+//@   arch.archetypeData != nil && arch.node != nil && 0 <= arch.archetypeData.index && arch.archetypeData.index < arch.node.nodeData.archetypes.len
+//@   && pgArch(&arch.node.nodeData.archetypes, arch.archetypeData.index) == arch && arch.archetypeData == pgData(&arch.node.nodeData.archetypeData, arch.archetypeData.index)
+//@   && len(arch.node.nodeData.freeIndices) < 1073741823
+
+// cleanupArchetype (C06): a table is retired only if it is EMPTY, belongs to a relation node and its target is a dead,
+// non-zero entity; in every other case nothing at all is written.
+//@ func World.cleanupArchetype(w, arch)
+//@   props C06
+//@   requires arch != nil && arch.node != nil && int(arch.archetypeAccess.RelationTarget.id) < len(w.entityPool.entities)
+//@   requires arch.node.HasRelation ==> arch.archetypeData != nil
+//@   requires arch.node.HasRelation && arch.archetypeData.index >= 0 ==> nodeFreeInv(arch.node) && tableSlotOK(arch)
+//@   flag nodirty
+//@   ensures[keeps] old(arch.len > 0 || !arch.node.HasRelation || arch.archetypeData.index < 0 || arch.archetypeAccess.RelationTarget.id == 0 || entAlive(w, arch.archetypeAccess.RelationTarget)) ==>
+//@        arch.len == old(arch.len) && arch.archetypeData == old(arch.archetypeData) && (arch.archetypeData != nil ==> arch.archetypeData.index == old(arch.archetypeData.index))
+//@        && (arch.node.HasRelation ==> mapHas(arch.node.nodeData.archetypeMap, arch.archetypeAccess.RelationTarget) == old(mapHas(arch.node.nodeData.archetypeMap, arch.archetypeAccess.RelationTarget)) && len(arch.node.nodeData.freeIndices) == old(len(arch.node.nodeData.freeIndices)))
+//@   ensures[retires] old(arch.len == 0 && arch.node.HasRelation && arch.archetypeData.index >= 0 && arch.archetypeAccess.RelationTarget.id != 0 && !entAlive(w, arch.archetypeAccess.RelationTarget)) ==>
+//@        arch.archetypeData.index == -1 && !mapHas(arch.node.nodeData.archetypeMap, old(arch.archetypeAccess.RelationTarget)) && nodeFreeInv(arch.node)
+//@        && len(arch.node.nodeData.freeIndices) == old(len(arch.node.nodeData.freeIndices)) + 1
+//@   ensures arch.node == old(arch.node) && arch.archetypeAccess.RelationTarget == old(arch.archetypeAccess.RelationTarget)
+//@   modifies arch.node.nodeData.archetypeMap[ALL], arch.node.nodeData.freeIndices, arch.node.nodeData.freeIndices[ALL], arch.len, arch.archetypeData.index
+//@   modifies all(cacheEntry.Indices), all(pointers[archetype].pointers), elems(*archetype), w.filterCache.getArchetypes
 
 // newTarget: the target an entity has after an exchange - the explicit one if a relation is given; otherwise the
 // old one, except zero when a relation component is among the removed ones (hence zero after remove / re-add / swap).
@@ -1439,6 +1544,7 @@ package ecs
 //@   requires hasRelation && target.id != 0 ==> int(target.id) < len(w.entityPool.entities)
 //@   requires bitSetCovers(&w.targetEntities, len(w.entities))
 //@   requires entAlive(w, entity) ==> int(w.entities[int(entity.id)].arch.archetypeAccess.RelationTarget.id) < len(w.entities)
+//@   requires entAlive(w, entity) && w.entities[int(entity.id)].arch.node.HasRelation ==> nodeFreeInv(w.entities[int(entity.id)].arch.node) && tableSlotOK(w.entities[int(entity.id)].arch)
 //@   flag nosafe may_panic panic_clean
 //@   lockfast isLocked(w)
 //@   panics_if !entAlive(w, entity)
@@ -1458,20 +1564,22 @@ package ecs
 //@        w.entities[int(entAt(&old(w.entities[int(entity.id)].arch).archetypeAccess, old(w.entities[int(entity.id)].index)).id)].index == old(w.entities[int(entity.id)].index)
 //@   flag noframe
 //@   modifies all(entityIndex.arch), all(entityIndex.index), all(archetype.cap), all(archetype.len), all(archetypeAccess.entityPointer), all(layout.pointer), w.targetEntities.data[ALL]
+//@   modifies all(nodeData.archetypeMap), all(nodeData.freeIndices), elems(int32), all(archetypeData.index), all(cacheEntry.Indices), all(pointers[archetype].pointers), elems(*archetype), w.filterCache.getArchetypes, w.entities[int(entity.id)].arch.node.nodeData.archetypeMap[ALL]
 //@   loop #1
 //@   inv (exists k int :: {rem[k]} 0 <= k && k < $i && specBit(w.registry.IsRelation, rem[k].id)) == false
 
 //@ func archNode.GetArchetype(a, target) (arch, ok)
 //@   flag trusted
-//@   ensures ok ==> arch != nil && arch.node == a && arch.archetypeData != nil && (a.HasRelation ==> arch.archetypeAccess.RelationTarget == target)
+//@   ensures ok ==> arch != nil && arch.node == a && arch.archetypeData != nil && (a.HasRelation ==> arch.archetypeAccess.RelationTarget == target) && arch.archetypeData.index >= 0
 
 // setRelation: the entity moves to the table of its node with the requested target (no move when the target is unchanged).
 //@ func World.setRelation(w, entity, comp, target)
-//@   props C05 C10 C11
+//@   props C05 C10 C11 C06
 //@   requires lockInv(&w.locks) && regInv(&w.registry) && validID(comp.id)
 //@   requires int(entity.id) < len(w.entityPool.entities) && len(w.entities) == len(w.entityPool.entities) && bitSetCovers(&w.targetEntities, len(w.entities))
 //@   requires target.id != 0 ==> int(target.id) < len(w.entityPool.entities)
 //@   requires entAlive(w, entity) ==> w.entities[int(entity.id)].arch != nil && w.entities[int(entity.id)].arch.node != nil && w.entities[int(entity.id)].index < w.entities[int(entity.id)].arch.len
+//@   requires entAlive(w, entity) && w.entities[int(entity.id)].arch.node.HasRelation ==> nodeOK(w.entities[int(entity.id)].arch.node) && tableSlotOK(w.entities[int(entity.id)].arch) && int(w.entities[int(entity.id)].arch.archetypeAccess.RelationTarget.id) < len(w.entityPool.entities)
 //@   flag nosafe may_panic panic_clean noframe
 //@   panics_if isLocked(w)
 //@   panics_if !entAlive(w, entity)
@@ -1483,18 +1591,25 @@ package ecs
 //@   loop #1
 //@   inv true
 
+// cleanupArchetypes (ASSUMED; the loop over all relation nodes needs a world-wide table invariant that is not under contract):
+// it retires, through removeArchetype (proved), only tables that are EMPTY; non-empty tables are left alone.
 //@ func World.cleanupArchetypes(w, target)
 //@   flag trusted nodirty
+//@   ensures forall t *archetype :: {t.len} old(t.len) > 0 ==> t.len == old(t.len) && t.archetypeData == old(t.archetypeData)
+//@   ensures forall n *archNode :: {n.nodeData} old(nodeFreeInv(n)) ==> nodeFreeInv(n)
+//@   ensures forall t *archetype :: {t.archetypeData} t.archetypeData == old(t.archetypeData) && t.node == old(t.node) && (old(tableSlotOK(t)) && t.archetypeData.index >= 0 ==> tableSlotOK(t))
+//@   modifies mapsOf(nodeData.archetypeMap), all(nodeData.freeIndices), elems(int32), all(archetype.len), all(archetypeData.index), all(cacheEntry.Indices), all(pointers[archetype].pointers), elems(*archetype), w.filterCache.getArchetypes
 
 // RemoveEntity: illegal calls panic before any change; the removal event is delivered before the removal, with the
 // entity still alive and the world locked by one extra lock that is released again; afterwards the handle is dead.
 //@ func World.RemoveEntity(w, entity)
-//@   props C02 C10 C11 C09
+//@   props C02 C10 C11 C09 C06
 //@   requires lockInv(&w.locks) && regInv(&w.registry) && poolInv(&w.entityPool) && issuedInv(&w.entityPool)
 //@   requires int(entity.id) < len(w.entityPool.entities) && len(w.entities) == len(w.entityPool.entities) && bitSetCovers(&w.targetEntities, len(w.entities))
 //@   requires entAlive(w, entity) ==> w.entityPool.eused[entity.id] && entity.id != 0
 //@   requires entAlive(w, entity) ==> w.entities[int(entity.id)].arch != nil && w.entities[int(entity.id)].arch.node != nil && w.entities[int(entity.id)].index < w.entities[int(entity.id)].arch.len
-//@   requires entAlive(w, entity) ==> validID(w.entities[int(entity.id)].arch.archetypeAccess.RelationComponent.id)
+//@   requires entAlive(w, entity) ==> validID(w.entities[int(entity.id)].arch.archetypeAccess.RelationComponent.id) && int(w.entities[int(entity.id)].arch.archetypeAccess.RelationTarget.id) < len(w.entityPool.entities)
+//@   requires entAlive(w, entity) && w.entities[int(entity.id)].arch.node.HasRelation ==> nodeFreeInv(w.entities[int(entity.id)].arch.node) && tableSlotOK(w.entities[int(entity.id)].arch)
 //@   known C02-gen-wrap: requires w.entityPool.entities[int(entity.id)].gen != 4294967295
 //@   flag nosafe may_panic panic_clean noframe
 //@   panics_if isLocked(w)
@@ -1537,3 +1652,115 @@ package ecs
 //@   inv forall k int :: {w.entityPool.entities[k].id} 0 <= k && k < len(w.entityPool.entities) ==> w.entityPool.entities[k].id == old(w.entityPool.entities[k].id) && w.entityPool.entities[k].gen == old(w.entityPool.entities[k].gen)
 //@   inv !query.isFiltered && query.world == w
 //@   inv query.access != nil || query.entityIndex >= query.entityIndexMax
+
+// LoadEntities: refused (before any change) on a locked world and on a world that has or had entities; otherwise the pool
+// view (entities, next, available) becomes a deep copy of the dump's: a NEW backing store with the dump's handles.
+// Not covered: the table rows of the alive entities (unsafe table storage, assumed contract of Alloc), the JSON encoding.
+//@ func World.LoadEntities(w, data)
+//@   props C17 C09 C10
+//@   requires data != nil && lockInv(&w.locks) && len(data.Entities) < 1000000000 && 1 <= w.config.CapacityIncrement && w.config.CapacityIncrement < 1000000000
+//@   flag nosafe may_panic noframe
+//@   lockfast isLocked(w)
+//@   lockfast len(w.entityPool.entities) > 1 || w.entityPool.available > 0
+//@   ensures fresh(w.entityPool.entities.data) && len(w.entityPool.entities) == len(data.Entities)
+//@   ensures forall k int :: {w.entityPool.entities[k].id} 0 <= k && k < len(data.Entities) ==> w.entityPool.entities[k].id == old(data.Entities[k].id) && w.entityPool.entities[k].gen == old(data.Entities[k].gen)
+//@   ensures w.entityPool.next == eid(data.Next) && w.entityPool.available == data.Available
+//@   ensures len(w.entities) == len(data.Entities) && fresh(w.entities.data)
+//@   ensures len(data.Entities) == old(len(data.Entities)) && data.Entities.data == old(data.Entities.data)
+//@   ensures forall k int :: {data.Entities[k].id} 0 <= k && k < len(data.Entities) ==> data.Entities[k].id == old(data.Entities[k].id) && data.Entities[k].gen == old(data.Entities[k].gen)
+//@   loop #1
+//@   inv fresh(w.entityPool.entities.data) && len(w.entityPool.entities) == len(data.Entities) && w.entityPool.next == eid(data.Next) && w.entityPool.available == data.Available
+//@   inv forall k int :: {w.entityPool.entities[k].id} 0 <= k && k < len(data.Entities) ==> w.entityPool.entities[k].id == old(data.Entities[k].id) && w.entityPool.entities[k].gen == old(data.Entities[k].gen)
+//@   inv len(w.entities) == len(data.Entities) && fresh(w.entities.data)
+//@   inv len(data.Entities) == old(len(data.Entities)) && data.Entities.data == old(data.Entities.data)
+//@   inv forall k int :: {data.Entities[k].id} 0 <= k && k < len(data.Entities) ==> data.Entities[k].id == old(data.Entities[k].id) && data.Entities[k].gen == old(data.Entities[k].gen)
+
+// ---------------------------------------------------------------------------------------------
+// C15 — Reset
+// ---------------------------------------------------------------------------------------------
+//@ func World.Cache(w) (c)
+//@   props C15
+//@   flag nodirty
+//@   ensures c == &w.filterCache
+//@   modifies w.filterCache.getArchetypes
+
+//@ func pagedSlice[archNode].Len(p) (n)
+//@   flag trusted
+//@   ensures n == p.len
+//@ func pagedSlice[archNode].Get(p, index) (r)
+//@   flag trusted
+//@   ensures r != nil
+
+// table storage side of Reset (ASSUMED): empties or retires the node's tables; of the cache it changes only the
+// table lists and position maps of the entries, never which filters are registered
+//@ func archNode.Reset(a, cache)
+//@   flag trusted
+//@   modifies all(archetype.len), all(archetypeData.index), all(nodeData.freeIndices), all(nodeData.archetypeMap), all(cacheEntry.Indices), all(pointers[archetype].pointers)
+
+// Reset: refused before any change on a locked world; afterwards the entity index and the pool have the view of a
+// fresh world (one reserved slot, empty free list), the world is unlocked, every resource slot is empty, all target
+// flags are clear. Frame: the component registry, the resource registry, the listener, the set of registered filters
+// (entries, ids, id->position map) and the configuration are not touched.
+//@ func World.Reset(w)
+//@   props C15 C09 C02 C20
+//@   requires lockInv(&w.locks) && poolInv(&w.entityPool) && resInv(&w.resources) && len(w.entities) >= 1
+//@   flag noframe use_expanded
+//@   lockfast isLocked(w)
+//@   ensures len(w.entities) == 1 && w.entities.data == old(w.entities.data)
+//@   ensures len(w.entityPool.entities) == 1 && w.entityPool.available == 0 && w.entityPool.next == 0 && w.entityPool.entities[0].id == 0 && w.entityPool.entities[0].gen == 4294967295
+//@   ensures poolInv(&w.entityPool) && issuedInv(&w.entityPool)
+//@   ensures lockInv(&w.locks) && !isLocked(w) && w.locks.bitPool.length == 0 && w.locks.bitPool.available == 0
+//@   ensures forall i int :: {w.resources.resources[i]} 0 <= i && i < MaskTotalBits ==> w.resources.resources[i] == nil
+//@   ensures forall k int :: {w.targetEntities.data[k]} 0 <= k && k < len(w.targetEntities.data) ==> w.targetEntities.data[k] == 0
+//@   modifies w.entities, w.targetEntities.data[ALL], *(&w.entityPool), w.locks.locks.bits, *(&w.locks.bitPool), w.resources.resources[ALL], w.filterCache.getArchetypes
+//@   modifies all(archetype.len), all(archetypeData.index), all(nodeData.freeIndices), all(nodeData.archetypeMap), all(cacheEntry.Indices), all(pointers[archetype].pointers)
+//@   loop #1
+//@   inv len(w.entities) == 1 && w.entities.data == old(w.entities.data)
+//@   inv len(w.entityPool.entities) == 1 && w.entityPool.available == 0 && w.entityPool.next == 0 && w.entityPool.entities[0].id == 0 && w.entityPool.entities[0].gen == 4294967295
+//@   inv poolInv(&w.entityPool) && issuedInv(&w.entityPool)
+//@   inv lockInv(&w.locks) && !isLocked(w) && w.locks.bitPool.length == 0 && w.locks.bitPool.available == 0
+//@   inv forall i int :: {w.resources.resources[i]} 0 <= i && i < MaskTotalBits ==> w.resources.resources[i] == nil
+//@   inv forall k int :: {w.targetEntities.data[k]} 0 <= k && k < len(w.targetEntities.data) ==> w.targetEntities.data[k] == 0
+
+// ---------------------------------------------------------------------------------------------
+// C06 — retiring and reusing relation tables (node bookkeeping; the storage itself is assumed)
+// ---------------------------------------------------------------------------------------------
+// nodeFreeInv: every slot on the node's free list holds a retired table: empty, marked inactive (index -1), belonging
+// to this node; free slots are in range and pairwise different.
+//@ pred nodeFreeInv(a *archNode) bool =
+//@   a.nodeData != nil && a.nodeData.archetypeMap != nil
+//@   && (forall k int :: {a.nodeData.freeIndices[k]} 0 <= k && k < len(a.nodeData.freeIndices) ==>
+//@        0 <= a.nodeData.freeIndices[k] && a.nodeData.freeIndices[k] < a.nodeData.archetypes.len
+//@        && pgArch(&a.nodeData.archetypes, a.nodeData.freeIndices[k]).len == 0
+//@        && pgArch(&a.nodeData.archetypes, a.nodeData.freeIndices[k]).archetypeData == pgData(&a.nodeData.archetypeData, a.nodeData.freeIndices[k])
+//@        && pgArch(&a.nodeData.archetypes, a.nodeData.freeIndices[k]).archetypeData != nil
+//@        && pgArch(&a.nodeData.archetypes, a.nodeData.freeIndices[k]).archetypeData.index == -1
+//@        && pgArch(&a.nodeData.archetypes, a.nodeData.freeIndices[k]).node == a)
+//@   && (forall j int, k int :: {a.nodeData.freeIndices[j], a.nodeData.freeIndices[k]} 0 <= j && j < k && k < len(a.nodeData.freeIndices) ==> a.nodeData.freeIndices[j] != a.nodeData.freeIndices[k])
+
+// nodeOK: the free-list invariant plus the sizes of the two paged slices agree (bounded so that the next index fits)
+//@ pred nodeOK(a *archNode) bool = nodeFreeInv(a) && a.nodeData.archetypes.len == a.nodeData.archetypeData.len && a.nodeData.archetypes.len >= 0 && a.nodeData.archetypes.len < 2147483647
+
+//@ func archetype.Deactivate(a)
+//@   props C06
+//@   requires a.archetypeData != nil
+//@   ensures a.len == 0 && a.archetypeData.index == -1
+//@   modifies a.len, a.archetypeData.index
+
+//@ func archetype.Activate(a, target, index)
+//@   props C06
+//@   requires a.archetypeData != nil
+//@   ensures a.archetypeData.index == index && a.archetypeAccess.RelationTarget == target
+//@   modifies a.archetypeData.index, a.archetypeAccess.RelationTarget
+
+// RemoveArchetype: the table leaves the target map, is emptied, marked inactive and its slot is pushed on the free list.
+//@ func archNode.RemoveArchetype(a, arch)
+//@   props C06
+//@   requires nodeFreeInv(a) && arch != nil && arch.archetypeData != nil && arch.node == a
+//@   requires 0 <= arch.archetypeData.index && arch.archetypeData.index < a.nodeData.archetypes.len && pgArch(&a.nodeData.archetypes, arch.archetypeData.index) == arch && arch.archetypeData == pgData(&a.nodeData.archetypeData, arch.archetypeData.index)
+//@   requires len(a.nodeData.freeIndices) < 1073741823
+//@   ensures nodeFreeInv(a) && arch.len == 0 && arch.archetypeData.index == -1
+//@   ensures len(a.nodeData.freeIndices) == old(len(a.nodeData.freeIndices)) + 1 && a.nodeData.freeIndices[old(len(a.nodeData.freeIndices))] == old(arch.archetypeData.index)
+//@   ensures !mapHas(a.nodeData.archetypeMap, old(arch.archetypeAccess.RelationTarget))
+//@   ensures forall t Entity :: {mapHas(a.nodeData.archetypeMap, t)} t != old(arch.archetypeAccess.RelationTarget) ==> mapHas(a.nodeData.archetypeMap, t) == old(mapHas(a.nodeData.archetypeMap, t)) && a.nodeData.archetypeMap[t] == old(a.nodeData.archetypeMap[t])
+//@   modifies a.nodeData.archetypeMap[ALL], a.nodeData.freeIndices, a.nodeData.freeIndices[ALL], arch.len, arch.archetypeData.index
